@@ -138,6 +138,11 @@ func explodeOperator(d *dataTreeNavigator, context Context, expressionNode *Expr
 	return context, nil
 }
 
+// a merge key is an unquoted << (tagged !!merge by the decoder), not any key spelled "<<"
+func isMergeKey(keyNode *CandidateNode) bool {
+	return keyNode.Value == "<<" && keyNode.Tag != "!!str"
+}
+
 func reconstructAliasedMap(node *CandidateNode, context Context) error {
 	var newContent = list.New()
 	// can I short cut here by prechecking if there's an anchor in the map?
@@ -147,7 +152,7 @@ func reconstructAliasedMap(node *CandidateNode, context Context) error {
 		keyNode := node.Content[index]
 		valueNode := node.Content[index+1]
 		log.Debugf("traversing %v", keyNode.Value)
-		if keyNode.Value != "<<" {
+		if !isMergeKey(keyNode) {
 			err := overrideEntry(node, keyNode, valueNode, index, context.ChildContext(newContent))
 			if err != nil {
 				return err
@@ -211,7 +216,7 @@ func explodeNode(node *CandidateNode, context Context) error {
 		hasAlias := false
 		for index := 0; index < len(node.Content); index = index + 2 {
 			keyNode := node.Content[index]
-			if keyNode.Value == "<<" {
+			if isMergeKey(keyNode) {
 				hasAlias = true
 				break
 			}
@@ -253,7 +258,7 @@ func applyAlias(node *CandidateNode, alias *CandidateNode, aliasIndex int, newCo
 		keyNode := alias.Content[index]
 		log.Debugf("applying alias key %v", keyNode.Value)
 		valueNode := alias.Content[index+1]
-		if keyNode.Value == "<<" {
+		if isMergeKey(keyNode) {
 			// the map being merged in merges other maps itself (and has not been exploded yet)
 			if valueNode.Kind == SequenceNode {
 				for nestedIndex := len(valueNode.Content) - 1; nestedIndex >= 0; nestedIndex = nestedIndex - 1 {
